@@ -123,6 +123,21 @@ def destination_name_is_never_opened(ctx):
         f = ctx.func(qn)
         cs = [c for c in own_calls(f.node) if (dotted(c.func) or '').endswith('get_temp_filename')]
         ctx.ob(f, f'temp name = get_temp_filename({src})', len(cs) == 1 and cs[0].args and q.ntext(f, cs[0].args[0]) == src, 'the temporary file must live next to the destination')
+    # the temp name always differs from the destination: the random suffix is appended AFTER any truncation of the base name
+    tf = ctx.func('utils.OSUtils.get_temp_filename')
+    rets = [x for x in own_nodes(tf.node) if isinstance(x, ast.Return) and x.value is not None]
+    okt = False
+    if len(rets) == 1:
+        rv = q.resolve_local(tf, rets[0].value)
+        base = q.resolve_local(tf, rv.args[-1]) if isinstance(rv, ast.Call) and norm(rv.func).endswith('path.join') and rv.args else rv
+        if isinstance(base, ast.BinOp) and isinstance(base.op, ast.Add):
+            right = norm(q.inline_locals(tf, base.right))
+            left = base.left.value if isinstance(base.left, ast.Subscript) else base.left  # name[:limit] or name
+            okt = 'random_file_extension()' in right and 'os.extsep' in right and norm(q.resolve_local(tf, left)) == f'os.path.basename({tf.params[1]})'
+        if isinstance(rv, ast.Call) and norm(rv.func).endswith('path.join'):
+            okt = okt and len(rv.args) == 2 and norm(q.resolve_local(tf, rv.args[0])) == f'os.path.dirname({tf.params[1]})'
+    ctx.ob(tf, 'temp name = join(dirname(filename), <base name, possibly truncated> + extsep + random extension)', okt,
+           'a truncation applied after the suffix can cut the suffix off: the temporary file IS the destination (partial data visible, cleanup deletes the old file)')
     f = ctx.func('__init__.S3Transfer.download_file')
     tn = q.names_defined_by(f, lambda v: isinstance(v, ast.BinOp) and norm(v).startswith('filename +') and 'random_file_extension()' in norm(v))
     ctx.ob(f, 'temp_filename = filename + os.extsep + random_file_extension()', len(tn) == 1 and len(q.local_defs(f, tn[0])) == 1, f'temp-name locals: {tn}')
